@@ -11,7 +11,7 @@ def one(key):
     from pyvc.verify import verify_target
     C, R = load_all()
     c = C[key]
-    rep = verify_target('/repo', c['relpath'], c['qualname'], c, C, R, timeout_ms=30000)
+    rep = verify_target(os.environ.get('VERIF_REPO', '/repo'), c['relpath'], c['qualname'], c, C, R, timeout_ms=30000)
     ok = rep['status'] == 'ok' and not rep['unsupported'] and rep['obligations'] and all(o['verdict'] == 'proved' for o in rep['obligations'])
     return key, ok, len(rep['obligations']), rep.get('sha256')
 
@@ -27,6 +27,6 @@ if __name__ == '__main__':
     out = {k: dict(obligations=n, sha256=sha) for k, ok, n, sha in res if ok}
     for k, ok, n, sha in res:
         print(('PROVED   ' if ok else 'NOT-ALL  '), k, n)
-    out['G_sites'] = sorted(s.sid for s in analyse('/repo') if s.verdict == 'proved')
+    out['G_sites'] = sorted(s.sid for s in analyse(os.environ.get('VERIF_REPO', '/repo')) if s.verdict == 'proved')
     json.dump(out, open(os.path.join(HERE, 'baseline_proved.json'), 'w'), indent=1, sort_keys=True)
     print('baseline written:', len(out) - 1, 'contracts,', len(out['G_sites']), 'G sites')
